@@ -52,6 +52,8 @@ func errClassText(err error) string {
 	return s
 }
 
+var c04seq int
+
 func checkWireToken(c *mon.Ctx, g *model.Gen, w *refcbor.Node, sig string) {
 	wire := refcbor.Encode(w)
 	ast, err := refcbor.DecodeAll(wire)
@@ -98,6 +100,38 @@ func checkWireToken(c *mon.Ctx, g *model.Gen, w *refcbor.Node, sig string) {
 		if wi.Verdict == model.NoVerdict {
 			c.Count("no-verdict-accepted")
 		}
+		// successive tokens of one device carry byte-identical component arrays: the
+		// caller edits the components of the FIRST result, then the same bytes are
+		// decoded again from a fresh buffer - the second result must again equal the
+		// wire (seeded fault C04-v: a memo of decoded component lists handing out
+		// shallow copies)
+		if c04seq++; c04seq%4 == 0 {
+			if pn, pv, fr := mon.Guard(func() {
+				scs, gerr := cl.GetSoftwareComponents()
+				if gerr != nil || len(scs) == 0 {
+					return
+				}
+				for _, sc := range scs {
+					if p, ok := sc.(*psatoken.SwComponent); ok && p != nil {
+						v, mv := "9.9.9-edited", make([]byte, 48)
+						p.Version, p.SignerID, p.MeasurementValue = &v, nil, &mv
+					}
+				}
+				cl2, derr2 := psatoken.DecodeAndValidateClaimsFromCBOR(append([]byte{}, wire...))
+				c.Eval()
+				c.Count("second-decode-after-editing-first-result")
+				if derr2 != nil {
+					c.Violation(fmt.Sprintf("C04/second-decode-after-editing-first-result/rejected/P%d", wi.P), "a token that was accepted is rejected when decoded again after the caller edited the components of the first result: "+derr2.Error(), det())
+					return
+				}
+				got2 := obs.Observe(cl2)
+				if d := model.ObsDiff(&got, &got2); d != "" {
+					c.Violation(fmt.Sprintf("C04/second-decode-after-editing-first-result/fidelity/P%d", wi.P), "decoding the same bytes again after the caller edited the components of the first result gives other values than the wire carries: "+d, det())
+				}
+			}); pn {
+				c.Violation("C04/panic/"+mon.PanicKey(fr), "panic in the second decode", map[string]any{"panic": pv, "frame": fr, "wire_hex": mon.Hex(wire), "sig": sig})
+			}
+		}
 	} else {
 		c.Count("library-rejected")
 		if wi.Verdict == model.Accept {
@@ -111,7 +145,7 @@ func checkWireToken(c *mon.Ctx, g *model.Gen, w *refcbor.Node, sig string) {
 }
 
 func runC04(c *mon.Ctx) {
-	c.Rule("tokens are assembled by the harness's own CBOR encoder: a valid / rule-breaking abstract claims-set of either profile, then 0-3 wire-level edits (known key := null / undefined / bool / ints at every width boundary / floats / bstr / tstr / array of small ints / array / map / tag; key deleted; unknown int and text keys with nested junk; key order permuted; duplicate key; tagged value; non-minimal and indefinite encodings; keys of the other profile; profile selector unknown / P1 name / OID; one-element nonce array; flag != 1; component := null / wrong type / unknown field / field of wrong type). The independent reader gives ACCEPT / REJECT / NO-VERDICT; the library must agree on ACCEPT and REJECT, and for every accepted token every getter whose wire value is unambiguous must return exactly that value. Also every (known key x special value) single edit exhaustively, and conformant tokens with 5..1000 (thorough: ..65537) software components. distinct_nontrivial = distinct edit-class signatures")
+	c.Rule("tokens are assembled by the harness's own CBOR encoder: a valid / rule-breaking abstract claims-set of either profile, then 0-3 wire-level edits (known key := null / undefined / bool / ints at every width boundary / floats / bstr / tstr / array of small ints / array / map / tag; key deleted; unknown int and text keys with nested junk; key order permuted; duplicate key; tagged value; non-minimal and indefinite encodings; keys of the other profile; profile selector unknown / P1 name / OID; one-element nonce array; flag != 1; component := null / wrong type / unknown field / field of wrong type). The independent reader gives ACCEPT / REJECT / NO-VERDICT; the library must agree on ACCEPT and REJECT, and for every accepted token every getter whose wire value is unambiguous must return exactly that value. Also every (known key x special value) single edit exhaustively, and conformant tokens with 5..1000 (thorough: ..65537) software components. Every fourth accepted token: the caller edits the software components of the result (version, signer id, measurement value), then the same bytes are decoded again from a fresh buffer - the second result must equal the first observation. distinct_nontrivial = distinct edit-class signatures")
 	g := model.NewGen(c.Seed*4049 + int64(c.Shard))
 	// exhaustive singles: every known key x a pool of special values
 	idx := 0
